@@ -381,9 +381,11 @@ class Interp(object):
         try:
             return getattr(obj, attr)
         except AttributeError:
-            if isinstance(obj, Arr) or hasattr(obj, 'is_elem_') or isinstance(obj, (Poly, Rat, Fr)):
-                # a real ndarray / numpy scalar may well have it: the summary is missing, not the attribute
-                raise AnalysisError('ndarray attribute %r is not modelled [at %s]' % (attr, self.where()))
+            if isinstance(obj, Arr) or hasattr(obj, 'is_elem_') or isinstance(obj, (Poly, Rat, Fr)) or \
+                    type(obj).__module__.startswith('ndverif'):
+                # a real ndarray / numpy scalar may well have it: the summary is missing, not the attribute (the same holds
+                # for every stand-in object of the analysis itself: a masked selection, a data dependent index set, ...)
+                raise AnalysisError('attribute %r of %s is not modelled [at %s]' % (attr, type(obj).__name__, self.where()))
             raise InterpRaise("'%s' object has no attribute '%s'" % (type(obj).__name__, attr), 'AttributeError')
 
     def setattr(self, obj, attr, value):
@@ -1005,6 +1007,8 @@ class Interp(object):
         except (IndexError, KeyError, TypeError) as exc:
             if isinstance(exc, InterpRaise):
                 raise
+            if isinstance(exc, TypeError) and type(base).__module__.startswith('ndverif') and not isinstance(base, Arr):
+                raise self.err('subscript of the stand-in object %s is not modelled' % type(base).__name__)
             raise InterpRaise(str(exc), type(exc).__name__)
 
     def eval_call(self, n, fr):
